@@ -1,6 +1,6 @@
 /-
   C15 — property theorems (and non-vacuity examples) ONLY.  Helper lemmas: `Lemmas.lean`, `Inv.lean`,
-  `Steps.lean`, `SpecLemmas.lean`.
+  `Steps.lean`, `SpecLemmas.lean`, `Outside.lean`.
 
   Property text: "For every set of cooperating tasks and every order of wake-ups, the single-threaded
   executor polls a task again whenever it has been woken since it last returned pending - including
@@ -16,6 +16,7 @@
 -/
 import YashModel.Executor.Steps
 import YashModel.Executor.SpecLemmas
+import YashModel.Executor.Outside
 namespace YashModel.Executor
 
 /-- a state the executor can be in: `n` steps into the run of some task system -/
@@ -243,5 +244,90 @@ theorem spec_holds (s : State) (h : Reachable s) :
   ⟨checkB_of_inv (reachable_inv h) (reachable_trace h), fun r hs => fifoB_of_step s r hs⟩
 
 example : checkB (stepN 3 (init true [[.wait 0, .signal 0], [.signal 0]] 2)) = none := by decide
+
+/-- ★ "every order of wake-ups", also from outside the tasks: if between any two steps of the executor
+    anybody wakes any task (any number of times), signals a channel, spawns a root through
+    `Executor::spawn`, clones a registered waker, or takes a registered waker and wakes it
+    (`ReachableX`), every clause above still holds — the queue has no duplicate, no unfinished task is
+    lost, no task is polled after completion or re-entrantly, results are delivered once, the panic
+    branches are not taken, and the executable Spec holds. -/
+theorem outside_wakes_safe (s : State) (h : ReachableX s) :
+    s.queue.Nodup ∧
+    (∀ t acts, t < s.ntasks → s.fut t = some acts → t ∈ s.queue ∨ Blocked s t acts) ∧
+    NoPollAfterFin s.log ∧ Bracketed s.log ∧
+    (∀ c, s.delivered c = if s.relay c = .done then 1 else 0) ∧
+    s.bad = false ∧ checkB s = none := by
+  obtain ⟨hi, ht⟩ := reachableX_inv h
+  exact ⟨hi.nodup, fun t acts htl hf => hi.live t acts htl (by simp) hf, ht.npaf, ht.brack, hi.deliv,
+    hi.nobad, checkB_of_inv hi ht⟩
+
+/-- a run with a wake-up of a queued task from outside, a wake-up of a finished task, a cloned waker -/
+example : ReachableX
+    (wake (stepN 2 (wake (wake (stepN 1 (init false [[.wait 0], [.signal 0]] 2)) 1) 1)) 1) :=
+  .wake 1 (stepN_reachableX 2 (.wake 1 (.wake 1 (stepN_reachableX 1 (.init _ _ _)) (by decide)) (by decide)))
+    (by decide)
+
+/-- The reference count of an unfinished task (`Rc<Task>` held by the queue, by registered wakers, by
+    relays — what `waker.rs` maintains) never drops to zero as long as nobody throws a waker away or
+    drops the executor: its future and its `Sender` stay alive, so its receiver never reports
+    `SenderDropped`. -/
+theorem never_lost (s : State) (h : ReachableX s) (nch t : Nat) (acts : Script) (ht : t < s.ntasks)
+    (hf : s.fut t = some acts) (hch : ∀ k, t ∈ s.waiters k → k < nch) :
+    lostB s nch t = false ∧
+    (tryReceive (s.relay t) ((s.fut t).isSome && !lostB s nch t)).2 = .error .notSent := by
+  have hi := (reachableX_inv h).1
+  have hp := refs_pos hi nch t acts ht hf hch
+  have hl : lostB s nch t = false := by
+    unfold lostB
+    have : (refs s nch t == 0) = false := by
+      cases hb : refs s nch t == 0 with
+      | false => rfl
+      | true => have := beq_iff_eq.mp hb; omega
+    simp [this]
+  refine ⟨hl, ?_⟩
+  have hs := hi.sync t ht
+  rw [hf] at hs
+  have hns : (s.relay t).sent = false := by
+    cases hsent : (s.relay t).sent with
+    | false => rfl
+    | true => exact absurd (hs.mpr hsent) (by simp)
+  rw [hl, hf]
+  cases hr : s.relay t with
+  | pending => rfl
+  | polled w => rfl
+  | computed v => rw [hr] at hns; simp [Relay.sent] at hns
+  | done => rw [hr] at hns; simp [Relay.sent] at hns
+
+/-- ★ The forwarder under every sequence of `send` / drop sender / drop receiver / `try_receive` /
+    `poll` with any wakers: at most one value is ever handed out and it is the value sent; the relay
+    is `Done` exactly when it has been handed out, and `try_receive` then answers `AlreadyReceived`;
+    `Sender::send` issues at most one wake-up in total; its `unreachable!()` is never reached. -/
+theorem forwarder_protocol (ops : List FOp) :
+    let f := frun {} ops
+    f.got.length ≤ 1 ∧ (∀ v, v ∈ f.got → v = 7) ∧
+    (f.got.length = 1 ↔ f.relay = .done) ∧
+    (f.relay = .done → ∀ alive, (tryReceive f.relay alive).2 = .error .alreadyReceived) ∧
+    f.nwakes ≤ 1 ∧ (∀ w, f.woken w ≤ 1) ∧ f.bad = false := by
+  intro f
+  have h : FInv f := finv_run ops {} finv_init
+  have hg := h.got
+  refine ⟨?_, ?_, ?_, ?_, h.wakes, fun w => Nat.le_trans (h.each w) h.wakes, h.nobad⟩
+  · rw [hg]; split <;> simp
+  · intro v hv; rw [hg] at hv; split at hv <;> simp at hv; exact hv
+  · rw [hg]; split <;> simp [*]
+  · intro hd alive; rw [hd]; rfl
+
+/-- ★ "second poll overwriting the waker": `Sender::send` wakes exactly the waker stored by the *last*
+    pending poll of the receiver, and nobody else. -/
+theorem send_wakes_last_poller (f : FState) (w w' : Nat) (htx : f.tx = true) (hrx : f.rx = true)
+    (hs : f.relay.sent = false) :
+    let f1 := (fstep f (.poll w)).1
+    let f2 := (fstep f1 (.poll w')).1
+    let f3 := (fstep f2 .send).1
+    f3.relay = .computed 7 ∧ f3.woken w' = f.woken w' + 1 ∧ (w ≠ w' → f3.woken w = f.woken w) := by
+  cases hr : f.relay <;> simp [hr, Relay.sent] at hs <;>
+    simp [fstep, recvPoll, relaySend, htx, hrx, hr, upd_apply] <;> intro h e <;> exact absurd e h
+
+example : (frun {} [.poll 0, .poll 1, .send, .try_, .try_]).got = [7] := by decide
 
 end YashModel.Executor
